@@ -73,7 +73,6 @@ class Summary:
         self.notes = sorted(interp.notes)
         self.imprecise = (state.imprecise or state.forks != UNIVERSE) if state is not None else False
         top = {}
-        tags = result.tags if isinstance(result, Bits) else frozenset()
         for b in (self.bits or ()):
             if isinstance(b, tuple) and b[0] != 'overlap':
                 top[b[0]] = max(top.get(b[0], -1), b[1])
@@ -82,14 +81,11 @@ class Summary:
                 kind, p = src
                 if state.lookup.get(src, 'hit') != 'hit' and kind == 'reg':
                     self.problems.append('operand {}: a spelling that is not a key of the register table is not refused'.format(p))
-                cells = []
-                for c in pcells:
-                    ds = {c.d[e] for (s2, e) in tags if s2 == src and e in c.d}
-                    if len(ds) > 1:
-                        raise Unsupported('operand {} reaches the word through differently adjusted values ({})'.format(p, sorted(ds)))
-                    cells.append(Cell(c.lo, c.hi, ds.pop() if ds else 0, c.m, c.r))
-                cells = merge_cells(cells)
-                if kind == 'imm' and src in top:
+                # the bits in the word are bits of the ORIGINAL operand (bit_source guarantees it), so the adjustment that
+                # describes the encoded value is a function of the original value and the encoded window alone, whatever
+                # arithmetic the code used to get there
+                cells = merge_cells([Cell(c.lo, c.hi, 0, c.m, c.r) for c in pcells])
+                if src in top:
                     cells, lossy = canonical_window(cells, top[src] + 1)
                     if lossy:
                         self.imprecise = True
@@ -136,33 +132,26 @@ class Summary:
 
 
 def canonical_window(cells, K):
-    """Canonical description of an accepted set whose operand bits 0..K-1 reach the word: when the encoded values
-    (orig + delta) fit neither the unsigned nor the signed K-bit window, every value is described by the signed K-bit value
-    with the same low K bits (delta changes by a multiple of 2**K, which no encoded bit can see).  A guard that admits
-    [-2**(K-1), 2**K - 1] followed by a K-bit mask and an alias window `x -= 2**K` followed by the signed guard are the
-    same function and get the same cells."""
-    if not cells:
+    """Canonical description of an accepted set whose operand bits 0..K-1 reach the word: encoded value = orig + delta with
+    delta the multiple of 2**K that brings orig into the signed K-bit window when negative originals are accepted (a
+    two's-complement field: [2**(K-1), 2**K - 1] then are alias spellings of negative values), into the unsigned window
+    otherwise (x8..x15 -> 0..7).  No encoded bit can see a multiple of 2**K, and the description does not depend on how the
+    code got there: a guard admitting [-2**(K-1), 2**K - 1] followed by a K-bit mask, an alias window `x -= 2**K` followed
+    by the signed guard, and `x + 2**K if x < 0 else x` are the same function and get the same cells."""
+    if not cells or any(c.lo <= -INF or c.hi >= INF for c in cells):
         return cells, False
-    if any(c.lo <= -INF or c.hi >= INF for c in cells):
-        return cells, False
-    lo = min(c.lo + c.delta for c in cells)
-    hi = max(c.hi + c.delta for c in cells)
     P = 1 << K
-    half = P >> 1
-    if (lo >= 0 and hi < P) or (lo >= -half and hi < half):
-        return cells, False
+    half = (P >> 1) if min(c.lo for c in cells) < 0 else 0
     out = []
     lossy = False
     for c in cells:
-        n_lo, n_hi = (c.lo + c.delta + half) // P, (c.hi + c.delta + half) // P
+        n_lo, n_hi = (c.lo + half) // P, (c.hi + half) // P
         if n_hi - n_lo > 256:
             out.append(c)
             lossy = True
             continue
         for n in range(n_lo, n_hi + 1):
-            seg_lo = n * P - half - c.delta
-            seg_hi = n * P + half - 1 - c.delta
-            nc = Cell(max(c.lo, seg_lo), min(c.hi, seg_hi), c.delta - n * P, c.m, c.r)
+            nc = Cell(max(c.lo, n * P - half), min(c.hi, n * P + P - half - 1), -n * P, c.m, c.r)
             if nc.lo <= nc.hi:
                 out.append(nc)
     return merge_cells(out), lossy
@@ -188,16 +177,30 @@ def closure_value(interp, clo):
 def summarise_binding(facts, mnemonic, binding_name=None):
     """Abstractly interpret the encoder bound to `mnemonic` under its partial constants."""
     part = facts.partials[binding_name] if binding_name else facts.binding(mnemonic)
-    fdef = facts.funcs.get(part.func)
-    if fdef is None:
-        raise AnalysisError('encoder {} of {} not found'.format(part.func, mnemonic))
     interp = Interp(facts)
     st = State()
+    # partial(partial(f, a=1), b=2): the innermost function with the keywords of the whole chain (outer ones win)
+    chain = [part]
+    while chain[-1].func in facts.partials and chain[-1].func not in facts.funcs:
+        if len(chain) > 8:
+            raise AnalysisError('partial bindings of {} form a cycle'.format(mnemonic))
+        chain.append(facts.partials[chain[-1].func])
+    bound = {}
+    for p in reversed(chain):
+        bound.update(p.kwargs)
+    func_name = chain[-1].func
+    try:
+        fv = interp.module_value(func_name)
+    except Unsupported as e:
+        raise AnalysisError('encoder {} of {} not found: {}'.format(func_name, mnemonic, e))
+    if not isinstance(fv, FuncValue) or isinstance(fv.fdef, ast.Lambda):
+        raise AnalysisError('encoder {} of {} is not a function of the module'.format(func_name, mnemonic))
+    fdef = fv.fdef
     pos = [a.arg for a in fdef.args.args]
-    open_params = [p for p in pos if p not in part.kwargs]
+    open_params = [p for p in pos if p not in bound]
     try:
         kwargs = {}
-        for k, v in part.kwargs.items():
+        for k, v in bound.items():
             if isinstance(v, list) and v and all(isinstance(x, Closure) for x in v):
                 kwargs[k] = [closure_value(interp, x) for x in v]
             elif isinstance(v, tuple):
@@ -211,17 +214,17 @@ def summarise_binding(facts, mnemonic, binding_name=None):
             if a.arg not in kwargs and d is not None and a.arg != 'cs':
                 kwargs[a.arg] = Param(a.arg)
                 open_params.append(a.arg)
-        result = interp.run_function(interp.module_value(part.func), [], kwargs, st)
+        result = interp.run_function(fv, [], kwargs, st)
         dead = st.dead
         if not dead:
             if isinstance(result, (Param, View, ModVal, Maybe)):
                 result = interp.to_bits(result, st, fdef)
             if not isinstance(result, (Bits, int)) or isinstance(result, bool):
-                raise Unsupported('{} returns {} instead of an instruction word'.format(part.func, type(result).__name__))
-        return Summary(mnemonic, part.func, open_params, None if dead else st, result if not dead else 0, interp)
+                raise Unsupported('{} returns {} instead of an instruction word'.format(func_name, type(result).__name__))
+        return Summary(mnemonic, func_name, open_params, None if dead else st, result if not dead else 0, interp)
     except Unsupported as e:
         raise AnalysisError('{} ({} via {}): construct outside the abstract domain: {}'.format(
-            mnemonic, part.name, part.func, e))
+            mnemonic, part.name, func_name, e))
     except RecursionError:
         raise AnalysisError('{} ({} via {}): construct outside the abstract domain: recursion too deep'.format(
-            mnemonic, part.name, part.func))
+            mnemonic, part.name, func_name))
